@@ -120,7 +120,7 @@ func c02r1(r *R) {
 	r.check(nPhrase > 0 && len(phraseBad) == 0, "writeHeaderOnlyResponse#reason-phrase", fn.Pos(), "the origin's reason phrase is relayed when there is one", strings.Join(dedupStrings(phraseBad), "; "))
 	// CONNECT literal
 	p := r.pkg(mpkg)
-	g, _ := p.Members["connectOKResponse"].(*ssa.Global)
+	g, _ := refGlobal(p, "connectOKResponse"), true
 	val := ""
 	if g != nil {
 		eachInstr(p.Func("init"), func(ins ssa.Instruction) {
@@ -374,8 +374,8 @@ func c02r4(r *R) {
 					up = describe(c.(*ssa.Call))
 				}
 			}
-			guard := guardedBy(w.at.Block(), eq("("+up+` != "")`))
-			after := mod != nil && instrDominates(mod, w.at)
+			guard := holdsAmong(w.conds, "("+up+` != "")`)
+			after := mod != nil && instrDominates(mod, w.site)
 			val := w.val == `"Upgrade"` && strings.HasSuffix(w.what, "Connection") || w.val == up && strings.HasSuffix(w.what, "Upgrade")
 			r.check(guard && after && val, spec.recv+"."+spec.fn+"#response-re-add("+strings.TrimPrefix(w.what, "header:Set ")+")", w.at.Pos(), "only for an upgrade reply, after the response modifiers, with the value read before them", fmt.Sprintf("guard=%v after-modifiers=%v value=%s", guard, after, w.val))
 		}
@@ -416,7 +416,7 @@ func c02r5(r *R) {
 	r.check(len(kinds) == 3 && len(why) == 0, "proxyHandler.writeResponse#dispatch", hw.Pos(), "event stream → SSE flusher; chunked → chunk flusher; else plain", strings.Join(dedupStrings(why), "; "))
 	// patterns
 	for name, want := range map[string][2]int64{"sseFlushPattern": {'\n', '\n'}, "chunkFlushPattern": {'\r', '\n'}} {
-		g, _ := r.pkg(mpkg).Members[name].(*ssa.Global)
+		g, _ := refGlobal(r.pkg(mpkg), name), true
 		got := [2]int64{-1, -1}
 		if g != nil {
 			eachInstr(r.pkg(mpkg).Func("init"), func(ins ssa.Instruction) {
